@@ -879,6 +879,17 @@ func (f *frame) oblige(kind, label, cond, text string, pos token.Pos) {
 		e.safetyCount = map[string]int{}
 	}
 	fnKey := funcKey(f.fn)
+	if e.top != nil && e.top.fn != nil && e.top.fn != f.fn {
+		// obligation of an inlined callee: it belongs to the function under proof (the same
+		// callee inlined into another function yields a different obligation)
+		inl := fnKey
+		fnKey = funcKey(e.top.fn)
+		if label != "" {
+			label = inl + ": " + label
+		} else {
+			label = inl
+		}
+	}
 	base := fmt.Sprintf("%s#%s", fnKey, kind)
 	if label != "" {
 		base += "[" + label + "]"
